@@ -624,10 +624,21 @@ class Array(metaclass=MetaArray):
     def _update(self, value):
         if is_integer(value):
             ll = value
+        elif len(self._shape) > 1:
+            shape = get_shape_from_array(value, len(self._shape))
+            ll = len(self) if tuple(shape) == tuple(self._shape) else len(value)
         else:
             ll = len(value)
         if len(self) == ll:
-            self.__class__._to_buffer(self._buffer, self._offset, value)
+            cls = self.__class__
+            info = cls._inspect_args(value)
+            size = self._get_size()
+            if info.size > size:
+                raise ValueError(
+                    f"{value} needs {info.size} bytes, {self} has {size}"
+                )
+            info.size = size  # the size of an instance never changes
+            cls._to_buffer(self._buffer, self._offset, value, info)
         else:
             if is_integer(value):
                 raise ValueError(f"Cannot specify new length {ll} for {self}")
